@@ -84,6 +84,7 @@ type Goroutine struct {
 type Event struct {
 	G    int
 	What string
+	Seq  int // global order of seam events (not part of the canonical log: goroutines woken at the same instant race for it)
 }
 
 // Sim is the state of one simulated klog process.
@@ -123,12 +124,14 @@ type Sim struct {
 	down        bool // set by Shutdown: cleanup after the process has ended
 	sigChans    []chan<- os.Signal
 	Stdout      bytes.Buffer
-	events      map[int][]string
+	events      map[int][]Event
 	EventCount  int // seam events of the whole process (used by KillAtEvent)
 	writeCalls  int
 	readCalls   int
 	metaCalls   int
 	tempNames   map[string]string
+	tickers     []*time.Ticker
+	timers      []*time.Timer
 	Fired       map[string]int // fault kinds that actually fired
 	Uncontrol   int            // seams hit from goroutines the simulator does not know
 	MapRanges   int
@@ -184,7 +187,7 @@ func New() *Sim {
 	return &Sim{
 		byGoid:    map[uint64]*Goroutine{},
 		parkedSet: map[int]*Goroutine{},
-		events:    map[int][]string{},
+		events:    map[int][]Event{},
 		Fired:     map[string]int{},
 		Zone:      time.UTC,
 	}
@@ -262,7 +265,7 @@ func (s *Sim) logEvent(g *Goroutine, what string) {
 		id = g.ID
 	}
 	s.mu.Lock()
-	s.events[id] = append(s.events[id], what)
+	s.events[id] = append(s.events[id], Event{G: id, What: what, Seq: s.EventCount})
 	s.mu.Unlock()
 }
 
@@ -277,9 +280,7 @@ func (s *Sim) Events() []Event {
 	sort.Ints(ids)
 	var out []Event
 	for _, id := range ids {
-		for _, w := range s.events[id] {
-			out = append(out, Event{id, w})
-		}
+		out = append(out, s.events[id]...)
 	}
 	return out
 }
@@ -557,7 +558,16 @@ func (s *Sim) Shutdown() {
 	s.down = true
 	chans := s.sigChans
 	s.sigChans = nil
+	tickers, timers := s.tickers, s.timers
+	s.tickers, s.timers = nil, nil
 	s.mu.Unlock()
+	// a dead process has no timers: stop them, otherwise the bubble never becomes idle
+	for _, t := range tickers {
+		t.Stop()
+	}
+	for _, t := range timers {
+		t.Stop()
+	}
 	for _, c := range chans {
 		select {
 		case c <- os.Interrupt:
@@ -1135,3 +1145,52 @@ func FileClose(f *os.File) error { return fileMeta(f, "close", f.Close) }
 func FileTruncate(f *os.File, size int64) error {
 	return fileMeta(f, "truncate", func() error { return f.Truncate(size) })
 }
+
+// ---------------------------------------------------------------------------------------
+// R8: timers. They run on the bubble's fake clock as they are; the simulation only keeps track
+// of them so that none outlives the simulated process (a goroutine that is unwound before it
+// could register its `defer ticker.Stop()` would otherwise keep the bubble busy for ever).
+
+// NewTicker replaces time.NewTicker.
+func NewTicker(d time.Duration) *time.Ticker {
+	t := time.NewTicker(d)
+	if s := active(); s != nil {
+		s.mu.Lock()
+		if s.down || s.Killed || s.Exited || s.Crashed {
+			s.mu.Unlock()
+			t.Stop()
+			return t
+		}
+		s.tickers = append(s.tickers, t)
+		s.mu.Unlock()
+	}
+	return t
+}
+
+// NewTimer replaces time.NewTimer.
+func NewTimer(d time.Duration) *time.Timer {
+	t := time.NewTimer(d)
+	if s := active(); s != nil {
+		s.mu.Lock()
+		s.timers = append(s.timers, t)
+		s.mu.Unlock()
+	}
+	return t
+}
+
+// AfterFunc replaces time.AfterFunc.
+func AfterFunc(d time.Duration, f func()) *time.Timer {
+	t := time.AfterFunc(d, f)
+	if s := active(); s != nil {
+		s.mu.Lock()
+		s.timers = append(s.timers, t)
+		s.mu.Unlock()
+	}
+	return t
+}
+
+// After replaces time.After.
+func After(d time.Duration) <-chan time.Time { return NewTimer(d).C }
+
+// Tick replaces time.Tick.
+func Tick(d time.Duration) <-chan time.Time { return NewTicker(d).C }
